@@ -1336,22 +1336,22 @@ theorem nth_match_iff (a b : Int) (index : Nat) :
     constructor
     · intro h; exact ⟨0, by omega⟩
     · rintro ⟨_, h⟩; omega
-  · simp only [ha, ↓reduceIte, Bool.and_eq_true, Bool.or_eq_true, decide_eq_true_eq, beq_iff_eq]
+  · simp only [ha, ↓reduceIte, Bool.and_eq_true, decide_eq_true_eq, beq_iff_eq]
+    have hsq : 0 < a * a := by
+      rcases Int.lt_or_gt_of_ne ha with h | h
+      · exact Int.mul_pos_of_neg_of_neg h h
+      · exact Int.mul_pos h h
     constructor
     · rintro ⟨hsign, hmod⟩
       obtain ⟨k, hk⟩ := Int.dvd_of_emod_eq_zero hmod
       have hk0 : 0 ≤ k := by
-        rcases hsign with ⟨h1, h2⟩ | ⟨h1, h2⟩
-        · rw [hk] at h1
-          by_cases hk' : k < 0
-          · have := Int.mul_neg_of_pos_of_neg h2 hk'
-            omega
-          · omega
-        · rw [hk] at h1
-          by_cases hk' : k < 0
-          · have := Int.mul_pos_of_neg_of_neg h2 hk'
-            omega
-          · omega
+        rw [hk] at hsign
+        have e : a * k * a = a * a * k := by rw [Int.mul_assoc, Int.mul_comm k a, ← Int.mul_assoc]
+        rw [e] at hsign
+        by_cases hk' : k < 0
+        · have := Int.mul_neg_of_pos_of_neg hsq hk'
+          omega
+        · omega
       refine ⟨k.toNat, ?_⟩
       rw [Int.toNat_of_nonneg hk0]
       omega
@@ -1359,11 +1359,9 @@ theorem nth_match_iff (a b : Int) (index : Nat) :
       have hoff : (index : Int) + 1 - b = a * n := by omega
       rw [hoff]
       constructor
-      · rcases Int.lt_or_gt_of_ne ha with h | h
-        · right
-          exact ⟨Int.mul_nonpos_of_nonpos_of_nonneg (Int.le_of_lt h) (Int.natCast_nonneg n), h⟩
-        · left
-          exact ⟨Int.mul_nonneg (Int.le_of_lt h) (Int.natCast_nonneg n), h⟩
+      · have e : a * (n : Int) * a = a * a * n := by rw [Int.mul_assoc, Int.mul_comm (n : Int) a, ← Int.mul_assoc]
+        rw [e]
+        exact Int.mul_nonneg (Int.le_of_lt hsq) (Int.natCast_nonneg n)
       · exact Int.mul_emod_right a n
 
 example : nthMatch 2 1 4 = true := by decide
